@@ -1,11 +1,157 @@
-(* C16 — property theorems only (work in progress: base types). *)
+(* C16 — property theorems only.  Statements are pinned here; proofs are one-line references into
+   Lattice/*.v.  Model: Lattice/LatModel.v (`denote : lty -> LatImpl`, one Gallina mirror per impl of
+   ascent_base/src/lattice.rs and lattice/*.rs).
+
+   Reading guide:  `wf_lty t = true` = the Rust type exists (trait bounds: `Ord` components for tuples and
+   OrdLattice, non-empty integer range, BOUND >= 0);  `wf L a` = a is a value of the type (integers in range,
+   sets canonical, BoundedSet within its bound, arrays of length N);  `le L a b` = Rust's `a <= b`
+   (partial_cmp is Some(Less | Equal));  jv / mv = by-value join / meet;  jm / mm = join_mut / meet_mut as
+   (receiver afterwards, returned flag);  bnd = (bottom, top) where BoundedLattice is implemented;
+   ocmp = Ord::cmp where Ord is implemented.  Every theorem holds for EVERY well-formed type, i.e. every
+   nesting depth, every tuple / Product arity >= 1, every array length, every integer range, every BOUND. *)
 From Coq Require Import List ZArith Bool.
 From AV Require Import Lattice.LatModel.
 From AV Require Import Lattice.LatLaws.
 From AV Require Import Lattice.LatTotal.
+From AV Require Import Lattice.LatWrap.
+From AV Require Import Lattice.LatProd.
+From AV Require Import Lattice.LatArr.
+From AV Require Import Lattice.LatSet.
+From AV Require Import Lattice.LatMain.
 Import ListNotations.
 Open Scope Z_scope.
 
-Theorem c16_base_partial : forall lo hi, lo <= hi -> LatOK (IntLat lo hi) /\ LatOK BoolLat /\ LatOK UnitLat.
-Proof. intros lo hi H; exact (conj (IntLat_ok lo hi H) (conj BoolLat_ok UnitLat_ok)). Qed.
-Print Assumptions c16_base_partial.
+(* the per-type obligation (partial order, lub / glb, closure, exact flags, by-value = in-place, extremal
+   bounds, cmp = partial_cmp), by induction on the type syntax *)
+Theorem c16_laws : forall t, wf_lty t = true -> LatOK (denote t).
+Proof. exact denote_ok. Qed.
+
+(* join and meet stay inside the type *)
+Theorem c16_closed : forall t, wf_lty t = true -> forall a b, wf (denote t) a -> wf (denote t) b ->
+  wf (denote t) (jv (denote t) a b) /\ wf (denote t) (mv (denote t) a b).
+Proof. intros t H; exact (law_closed _ (denote_laws t H)). Qed.
+
+Theorem c16_commutative : forall t, wf_lty t = true -> forall a b, wf (denote t) a -> wf (denote t) b ->
+  jv (denote t) a b = jv (denote t) b a /\ mv (denote t) a b = mv (denote t) b a.
+Proof. intros t H; exact (law_comm _ (denote_laws t H)). Qed.
+
+Theorem c16_associative : forall t, wf_lty t = true -> forall a b c, wf (denote t) a -> wf (denote t) b -> wf (denote t) c ->
+  jv (denote t) (jv (denote t) a b) c = jv (denote t) a (jv (denote t) b c) /\
+  mv (denote t) (mv (denote t) a b) c = mv (denote t) a (mv (denote t) b c).
+Proof. intros t H; exact (law_assoc _ (denote_laws t H)). Qed.
+
+Theorem c16_idempotent : forall t, wf_lty t = true -> forall a, wf (denote t) a ->
+  jv (denote t) a a = a /\ mv (denote t) a a = a.
+Proof. intros t H; exact (law_idem _ (denote_laws t H)). Qed.
+
+Theorem c16_absorbing : forall t, wf_lty t = true -> forall a b, wf (denote t) a -> wf (denote t) b ->
+  jv (denote t) a (mv (denote t) a b) = a /\ mv (denote t) a (jv (denote t) a b) = a.
+Proof. intros t H; exact (law_absorb _ (denote_laws t H)). Qed.
+
+(* agreement with the type's PartialOrd: a <= b iff join(a,b) = b iff meet(a,b) = a *)
+Theorem c16_order_agreement : forall t, wf_lty t = true -> forall a b, wf (denote t) a -> wf (denote t) b ->
+  (le (denote t) a b <-> jv (denote t) a b = b) /\ (le (denote t) a b <-> mv (denote t) a b = a).
+Proof. intros t H; exact (law_order _ (denote_laws t H)). Qed.
+
+(* PartialOrd is a partial order; partial_cmp and == are determined by <= *)
+Theorem c16_partial_order : forall t, wf_lty t = true ->
+  (forall a, wf (denote t) a -> le (denote t) a a) /\
+  (forall a b, wf (denote t) a -> wf (denote t) b -> le (denote t) a b -> le (denote t) b a -> a = b) /\
+  (forall a b c, wf (denote t) a -> wf (denote t) b -> wf (denote t) c -> le (denote t) a b -> le (denote t) b c -> le (denote t) a c).
+Proof. intros t H; exact (conj (law_refl _ (denote_laws t H)) (conj (law_antisym _ (denote_laws t H)) (law_trans _ (denote_laws t H)))). Qed.
+
+Theorem c16_partial_cmp : forall t, wf_lty t = true -> forall a b, wf (denote t) a -> wf (denote t) b ->
+  (pcmp (denote t) a b = Some Eq <-> a = b) /\
+  (pcmp (denote t) a b = Some Lt <-> le (denote t) a b /\ a <> b) /\
+  (pcmp (denote t) a b = Some Gt <-> le (denote t) b a /\ a <> b) /\
+  (pcmp (denote t) a b = None <-> ~ le (denote t) a b /\ ~ le (denote t) b a).
+Proof. intros t H; exact (law_pcmp _ (denote_laws t H)). Qed.
+
+Theorem c16_eq_structural : forall t, wf_lty t = true -> forall a b, eqb (denote t) a b = true <-> a = b.
+Proof. intros t H; exact (law_eq _ (denote_laws t H)). Qed.
+
+(* join is the least upper bound and meet the greatest lower bound of that order *)
+Theorem c16_join_is_lub : forall t, wf_lty t = true -> forall a b c, wf (denote t) a -> wf (denote t) b -> wf (denote t) c ->
+  le (denote t) a (jv (denote t) a b) /\ le (denote t) b (jv (denote t) a b) /\
+  (le (denote t) a c -> le (denote t) b c -> le (denote t) (jv (denote t) a b) c).
+Proof. intros t H; exact (law_lub _ (denote_laws t H)). Qed.
+
+Theorem c16_meet_is_glb : forall t, wf_lty t = true -> forall a b c, wf (denote t) a -> wf (denote t) b -> wf (denote t) c ->
+  le (denote t) (mv (denote t) a b) a /\ le (denote t) (mv (denote t) a b) b /\
+  (le (denote t) c a -> le (denote t) c b -> le (denote t) c (mv (denote t) a b)).
+Proof. intros t H; exact (law_glb _ (denote_laws t H)). Qed.
+
+(* join_mut / meet_mut leave the same value as join / meet ... *)
+Theorem c16_mut_equals_by_value : forall t, wf_lty t = true -> forall a b, wf (denote t) a -> wf (denote t) b ->
+  fst (jm (denote t) a b) = jv (denote t) a b /\ fst (mm (denote t) a b) = mv (denote t) a b.
+Proof. intros t H; exact (law_mut_value _ (denote_laws t H)). Qed.
+
+(* ... and return true exactly when the receiver changed *)
+Theorem c16_flag_exact : forall t, wf_lty t = true -> forall a b, wf (denote t) a -> wf (denote t) b ->
+  (snd (jm (denote t) a b) = true <-> fst (jm (denote t) a b) <> a) /\
+  (snd (mm (denote t) a b) = true <-> fst (mm (denote t) a b) <> a).
+Proof. intros t H; exact (law_mut_flag _ (denote_laws t H)). Qed.
+
+(* equivalently (what the fix-point engine relies on): no change reported iff the argument was already below / above *)
+Theorem c16_flag_order : forall t, wf_lty t = true -> forall a b, wf (denote t) a -> wf (denote t) b ->
+  (snd (jm (denote t) a b) = false <-> le (denote t) b a) /\ (snd (mm (denote t) a b) = false <-> le (denote t) a b).
+Proof. intros t H a b Ha Hb; exact (conj (jm_flag_le _ (denote_ok t H) a b Ha Hb) (mm_flag_le _ (denote_ok t H) a b Ha Hb)). Qed.
+
+(* top / bottom are the extremal elements (and neutral / absorbing for the operations) *)
+Theorem c16_bounds_extremal : forall t, wf_lty t = true -> forall bo tp, bnd (denote t) = Some (bo, tp) ->
+  wf (denote t) bo /\ wf (denote t) tp /\
+  forall a, wf (denote t) a ->
+    le (denote t) bo a /\ le (denote t) a tp /\
+    jv (denote t) a tp = tp /\ mv (denote t) a bo = bo /\ jv (denote t) bo a = a /\ mv (denote t) tp a = a.
+Proof. intros t H; exact (law_bounds _ (denote_laws t H)). Qed.
+
+(* Dual and Reverse swap the two operations (by-value and in-place, flags included), the order and the bounds *)
+Theorem c16_dual_swaps : forall t,
+  (forall a b, jv (denote (LDual t)) a b = mv (denote t) a b) /\ (forall a b, mv (denote (LDual t)) a b = jv (denote t) a b) /\
+  (forall a b, jm (denote (LDual t)) a b = mm (denote t) a b) /\ (forall a b, mm (denote (LDual t)) a b = jm (denote t) a b) /\
+  (forall a b, pcmp (denote (LDual t)) a b = pcmp (denote t) b a) /\
+  (forall a b, le (denote (LDual t)) a b <-> le (denote t) b a) /\
+  (forall bo tp, bnd (denote t) = Some (bo, tp) -> bnd (denote (LDual t)) = Some (tp, bo)).
+Proof. intros t; exact (dual_swaps (denote t)). Qed.
+
+Theorem c16_reverse_swaps : forall t,
+  (forall a b, jv (denote (LReverse t)) a b = mv (denote t) a b) /\ (forall a b, mv (denote (LReverse t)) a b = jv (denote t) a b) /\
+  (forall a b, jm (denote (LReverse t)) a b = mm (denote t) a b) /\ (forall a b, mm (denote (LReverse t)) a b = jm (denote t) a b) /\
+  (forall a b, pcmp (denote (LReverse t)) a b = pcmp (denote t) b a) /\
+  (forall a b, le (denote (LReverse t)) a b <-> le (denote t) b a) /\
+  (forall bo tp, bnd (denote t) = Some (bo, tp) -> bnd (denote (LReverse t)) = Some (tp, bo)).
+Proof. intros t; exact (reverse_swaps (denote t)). Qed.
+
+(* where the type implements Ord, cmp is partial_cmp (the order is total); Ord is implemented exactly by the
+   types built from integers, bool, (), Option, Rc, Arc, Box, Reverse, Dual, OrdLattice and tuples *)
+Theorem c16_cmp_total : forall t, wf_lty t = true -> forall c, ocmp (denote t) = Some c ->
+  forall a b, wf (denote t) a -> wf (denote t) b -> pcmp (denote t) a b = Some (c a b).
+Proof. intros t H; exact (law_cmp _ (denote_laws t H)). Qed.
+Theorem c16_ord_types : forall t, has_ord (denote t) = ord_lty t.
+Proof. exact has_ord_syntactic. Qed.
+
+(* non-vacuity on a nested type: Dual<Option<Product<(i32, bool)>>> is well-formed, the values are values of
+   the type, and the model computes (join, meet, join_mut, meet_mut, partial_cmp, bottom/top) *)
+Example c16_example :
+  let t := LDual (LOption (LProd (LCons i32 (LOne LBool)))) in
+  let a : carrier (denote t) := Some (1, true) in
+  let b : carrier (denote t) := Some (-2, false) in
+  let c : carrier (denote t) := Some (3, false) in
+  wf_lty t = true /\ wf (denote t) a /\ wf (denote t) b /\ wf (denote t) c /\
+  jv (denote t) a b = Some (-2, false) /\ mv (denote t) a b = Some (1, true) /\
+  jm (denote t) a b = (Some (-2, false), true) /\ mm (denote t) a b = (Some (1, true), false) /\
+  pcmp (denote t) a b = Some Lt /\ pcmp (denote t) a c = None /\
+  jm (denote t) a c = (Some (1, false), true) /\ mm (denote t) a c = (Some (3, true), true) /\
+  bnd (denote t) = Some (Some (2147483647, true), None) /\
+  wf_lty (LTuple (LCons i32 (LOne LSet))) = false /\
+  jm (denote (LBSet 2)) (Some [0; 1]) (Some [2]) = (None, true) /\
+  jm (denote LSet) [2] [0; 1] = ([0; 1; 2], true) /\ mm (denote LSet) [0; 1] [1; 2] = ([1], true).
+Proof. vm_compute. repeat split. Qed.
+
+Print Assumptions c16_laws. Print Assumptions c16_closed. Print Assumptions c16_commutative. Print Assumptions c16_associative.
+Print Assumptions c16_idempotent. Print Assumptions c16_absorbing. Print Assumptions c16_order_agreement.
+Print Assumptions c16_partial_order. Print Assumptions c16_partial_cmp. Print Assumptions c16_eq_structural.
+Print Assumptions c16_join_is_lub. Print Assumptions c16_meet_is_glb. Print Assumptions c16_mut_equals_by_value.
+Print Assumptions c16_flag_exact. Print Assumptions c16_flag_order. Print Assumptions c16_bounds_extremal.
+Print Assumptions c16_dual_swaps. Print Assumptions c16_reverse_swaps. Print Assumptions c16_cmp_total.
+Print Assumptions c16_ord_types. Print Assumptions c16_example.
